@@ -93,6 +93,10 @@ class Profile:
     unaligned_pins: bool = False
     rates: bool = False
     day_efforts: bool = True
+    unsched: bool = False  # sprinkle unschedulable leaves: never-working resource, cycles, group allocations
+    container_work: bool = False  # containers that carry effort / allocate themselves
+    durs: list = field(default_factory=list)  # explicit (n, unit) project lengths to sample from (overrides weeks)
+    starts: list = field(default_factory=list)  # explicit project start dates to sample from
 
 
 def _effort_whole(draw, res_min, eff: Fraction, max_slots, day_ok=True):
@@ -204,9 +208,14 @@ def project_specs(draw, pf: Profile):
         start = datetime(2020, 1, 1) + timedelta(days=draw(st.integers(0, 5000)))
     else:
         start = draw(st.sampled_from(TYPICAL_STARTS))
+    if pf.starts and dst_zone is None:
+        start = draw(st.sampled_from(pf.starts))
     weeks = draw(st.integers(*pf.weeks))
     spec = ProjectSpec(start=start, dur=(weeks, "w"), res_min=res_min)
     span = weeks * 7
+    if pf.durs:
+        spec.dur = draw(st.sampled_from(pf.durs))
+        span = max(2, min(60, (spec.end() - spec.start).days))
     if pf.alap_project and draw(st.integers(0, 2)) == 0:
         spec.sched = "alap"
 
@@ -302,12 +311,17 @@ def project_specs(draw, pf: Profile):
         t = Task(f"t{i}")
         # placement in the tree
         parent = None
-        if pf.depth > 1 and containers and draw(st.integers(0, 2)) > 0:
+        open_new = pf.depth > 1 and draw(st.integers(0, 9)) < (2 if pf.depth <= 3 else 4)
+        if pf.depth > 1 and containers and not open_new and draw(st.integers(0, 3)) > 0:
             parent = draw(st.sampled_from(containers))
-        elif pf.depth > 1 and draw(st.integers(0, 3)) == 0:
-            # open a new container (possibly nested)
-            cpar = draw(st.sampled_from(containers)) if containers and draw(st.booleans()) else None
-            if cpar is None or len(cpar[0]) < pf.depth - 1:
+        elif open_new:
+            # open a new container (possibly nested, preferring the deepest ones for deep profiles)
+            cpar = None
+            if containers and draw(st.integers(0, 3)) > 0:
+                cpar = containers[-1] if (pf.depth > 3 and draw(st.booleans())) else draw(st.sampled_from(containers))
+            if cpar is not None and len(cpar[0]) >= pf.depth - 1:
+                cpar = None
+            if True:
                 c = Task(f"g{len(containers)}")
                 cpath = (cpar[0] if cpar else ()) + (c.id,)
                 (cpar[1].children if cpar else spec.tasks).append(c)
@@ -418,6 +432,31 @@ def project_specs(draw, pf: Profile):
             if pf.relrefs and draw(st.booleans()):
                 d.rel = True
             t.deps.append(d)
+
+    if pf.unsched:
+        if draw(st.booleans()):
+            rz = Res("rz", leaves=[Leave("vacation", start - timedelta(days=1), start + timedelta(days=span + 1500))])
+            spec.resources.append(rz)
+            for p, t in leaves_:
+                if t.alloc and draw(st.integers(0, 4)) == 0:
+                    t.alloc = ["rz"]
+                    t.alt = []
+        eff_leaves = [(p, t) for p, t in leaves_ if t.alloc]
+        if len(eff_leaves) >= 2 and draw(st.integers(0, 2)) == 0:
+            (pa, ta), (pb, tb) = eff_leaves[0], eff_leaves[-1]
+            if pa != pb:
+                ta.deps.append(Dep(pb))
+                tb.deps.append(Dep(pa))
+        if pf.res_groups and spec.resources and spec.resources[0].children and eff_leaves and draw(st.integers(0, 2)) == 0:
+            eff_leaves[draw(st.integers(0, len(eff_leaves) - 1))][1].alloc = [spec.resources[0].id]
+        if eff_leaves and draw(st.integers(0, 3)) == 0:
+            p, t = eff_leaves[draw(st.integers(0, len(eff_leaves) - 1))]
+            t.deps.append(Dep(("nosuchtask",)))
+    if pf.container_work:
+        for p, c in containers:
+            if draw(st.integers(0, 2)) == 0:
+                c.effort = (str(draw(st.integers(1, 6))), "h")
+                c.alloc = [draw(st.sampled_from(rids))]
 
     # pinned starts (forward) on some leaves without dependencies
     if pf.pins and forward_project:
